@@ -62,6 +62,55 @@ OpTable ==
           NoOperand("stack_value", 159), NoOperand("GNU_push_tls_address", 224) >>
     \* DW_OP_GNU_uninit (0xf0) is left out: libdw itself rejects it ("invalid DWARF")
 
+\* Operations whose operands name a DIE, an index into .debug_addr or a nested expression (DWARF 5, 2.5 / 2.6, and
+\* the GNU extensions that DWARF 5 standardised).  enc as for OpTable plus "ulebref" / "u4ref" / "u2ref" (the
+\* CU-relative offset of a DIE), "refaddr" (a .debug_info offset), "szblock" (a size byte and that many bytes),
+\* "nested".  cls, what `value' yields: "u" one number, "uu" two numbers, "die-s" a DIE and a signed number,
+\* "die-block" a DIE and a block, "nested" the nested expression.  twin: the operation it was standardised from.
+TOp(atom, code, cls, enc, twin) == [atom |-> atom, code |-> code, cls |-> cls, enc |-> enc, twin |-> twin]
+TypedOps == <<
+    TOp("call2", 152, "u", <<"u2ref">>, "none"), TOp("call4", 153, "u", <<"u4ref">>, "none"),
+    TOp("implicit_pointer", 160, "die-s", <<"refaddr", "sleb">>, "GNU_implicit_pointer"),
+    TOp("addrx", 161, "u", <<"uleb">>, "GNU_addr_index"), TOp("constx", 162, "u", <<"uleb">>, "GNU_const_index"),
+    TOp("entry_value", 163, "nested", <<"nested">>, "GNU_entry_value"),
+    TOp("const_type", 164, "die-block", <<"ulebref", "szblock">>, "GNU_const_type"),
+    TOp("regval_type", 165, "uu", <<"uleb", "ulebref">>, "GNU_regval_type"),
+    TOp("deref_type", 166, "uu", <<"u1", "ulebref">>, "GNU_deref_type"),
+    TOp("xderef_type", 167, "uu", <<"u1", "ulebref">>, "none"),
+    TOp("convert", 168, "u", <<"ulebref">>, "GNU_convert"), TOp("reinterpret", 169, "u", <<"ulebref">>, "GNU_reinterpret"),
+    TOp("GNU_implicit_pointer", 242, "die-s", <<"refaddr", "sleb">>, "none"),
+    TOp("GNU_entry_value", 243, "nested", <<"nested">>, "none"),
+    TOp("GNU_const_type", 244, "die-block", <<"ulebref", "szblock">>, "none"),
+    TOp("GNU_regval_type", 245, "uu", <<"uleb", "ulebref">>, "none"),
+    TOp("GNU_deref_type", 246, "uu", <<"u1", "ulebref">>, "none"),
+    TOp("GNU_convert", 247, "u", <<"ulebref">>, "none"), TOp("GNU_reinterpret", 249, "u", <<"ulebref">>, "none"),
+    TOp("GNU_parameter_ref", 250, "u", <<"u4ref">>, "none"),
+    TOp("GNU_addr_index", 251, "u", <<"uleb">>, "none"), TOp("GNU_const_index", 252, "u", <<"uleb">>, "none") >>
+TypedOf(atom) == CHOOSE i \in 1..Len(TypedOps) : TypedOps[i].atom = atom
+
+\* MECHANISM: the switch over op->atom in locexpr_op_values (atval.cc), as the branch an operation takes
+CONSTANT PinnedOps        \* TRUE: the switch before fix 560f4a6 (self-test)
+OpBranch(atom) ==
+    CASE atom \in {"call2", "call4", "GNU_convert", "GNU_reinterpret", "GNU_parameter_ref"} -> "one-unsigned"
+      [] atom \in {"convert", "reinterpret", "addrx", "constx", "GNU_addr_index", "GNU_const_index"} ->
+             IF PinnedOps THEN "nothing" ELSE "one-unsigned"
+      [] atom \in {"GNU_regval_type", "GNU_deref_type"} -> "two-unsigned"
+      [] atom \in {"regval_type", "deref_type", "xderef_type"} -> IF PinnedOps THEN "nothing" ELSE "two-unsigned"
+      [] atom = "GNU_implicit_pointer" -> "die-and-signed"
+      [] atom = "implicit_pointer" -> IF PinnedOps THEN "nothing" ELSE "die-and-signed"
+      [] atom = "GNU_entry_value" -> "nested"
+      [] atom = "entry_value" -> IF PinnedOps THEN "nothing" ELSE "nested"
+      [] atom = "GNU_const_type" -> "die-and-block"
+      [] atom = "const_type" -> IF PinnedOps THEN "nothing" ELSE "die-and-block"
+      [] OTHER -> "nothing"
+BranchOfClass(cls) == CASE cls = "u" -> "one-unsigned" [] cls = "uu" -> "two-unsigned" [] cls = "die-s" -> "die-and-signed"
+                         [] cls = "die-block" -> "die-and-block" [] cls = "nested" -> "nested"
+\* MEANING: every operation reports its operands; a standardised operation reports what its precursor reports
+OperandsReported == \A i \in 1..Len(TypedOps) : OpBranch(TypedOps[i].atom) = BranchOfClass(TypedOps[i].cls)
+TwinsAgree == \A i \in 1..Len(TypedOps) : TypedOps[i].twin # "none" =>
+                 LET t == TypedOps[TypedOf(TypedOps[i].twin)] IN
+                 /\ t.cls = TypedOps[i].cls /\ t.enc = TypedOps[i].enc /\ OpBranch(t.atom) = OpBranch(TypedOps[i].atom)
+
 \* Attributes of the classes exprloc / loclistptr (DWARF 4, figure 20; in DWARF 2 and 3: block / loclistptr):
 \* whatever form stores them, their value is a location -- one element per address range.
 LocAttrs == <<
